@@ -244,8 +244,16 @@ def run(tier):
     # fatal error - a map written under a read lock -, which nothing can recover)
     rt = c.path("trace", "kvreaders.ndjson")
     if c.run_vh_crashcheck(["drive", "kvreaders", "-seed", c.seed, "-out", rt],
-                           "kvlin inmem: concurrent readers on expiring records took the process down", timeout=120) is not None:
-        c.traces_validated += 1
+                           "kvlin: concurrent readers on expiring records / sixteen concurrent writers took the process down",
+                           timeout=300) is not None:
+        cfg = c.write_cfg("kv", "WideTrace", postcondition="Accepted")
+        ok, at, _ = c.validate_trace("kv", "WideTrace", cfg, rt, label="WideTrace-fresh")
+        if ok:
+            c.traces_validated += 1
+        else:
+            ev = json.loads(open(rt).read().splitlines()[at - 1])
+            c.report_failure("kv: a version was handed out twice (or a write failed) under sixteen concurrent writers (%s)" % ev.get("backend"),
+                             {"rejected_at_line": at, "event": ev})
     return c.finish(rule="every recorded concurrent history (%d in-memory, %d Redis: 2-4 goroutines x 3-6 calls (read-CAS chains: "
                          "up to 6 rounds) over 2 keys, random mixes of Create/Get/Put/CasByVersion/Delete/GetMany/PutMany, unsynchronised "
                          "read-CAS / Put / Delete-Create chains and all-fire-at-once Create/Create, CAS/CAS, Delete/CAS, Put/CAS races "
